@@ -3,6 +3,7 @@ package runinproc
 import (
 	"encoding/json"
 	"fmt"
+	"math/bits"
 	"os"
 	"os/exec"
 	"path/filepath"
@@ -110,6 +111,7 @@ func TestPlan(t *testing.T) {
 		total := globEnumTotal()
 		p.Shards = append(p.Shards, ev.RangeShards("enum", "^TestGlobEnum$", total, total/32+1, env)...)
 		p.Shards = append(p.Shards, ev.ShardSpec{Name: "links", Test: "^TestGlobLinks$", Env: env})
+		p.Shards = append(p.Shards, ev.ShardSpec{Name: "unprivileged", Test: "^TestGlobUnprivileged$", Env: env, AsNobody: true, TimeoutS: 900})
 		n, checks := 4, 150
 		if thorough {
 			n, checks = 16, 400
@@ -280,6 +282,10 @@ func genGraph(t *rapid.T) GraphCase {
 	c.TwoCmds = pick("twocmds", 5)
 	c.Empty = pick("empty", 3)
 	c.VarLike = pick("varlike", 3)
+	if len(c.TwoCmds) > 0 && rapid.IntRange(0, 3).Draw(t, "busy") == 0 {
+		c.Busy = []int{rapid.SampledFrom(c.TwoCmds).Draw(t, "busy_task")}
+		c.BusyErr = rapid.SampledFrom([]string{"ETXTBSY", "EAGAIN", "EINTR", "EMFILE"}).Draw(t, "busy_err")
+	}
 	perm := rapid.Permutation(graphNames[:n]).Draw(t, "order")
 	k := rapid.IntRange(1, 3).Draw(t, "nreq")
 	c.Request = append([]string(nil), perm[:k]...)
@@ -354,6 +360,55 @@ func TestGlobEnum(t *testing.T) {
 		}
 	}
 	s.Extra("enum_pool", globPool[:globPoolSize()])
+	if s.Failed() {
+		t.Fatal("violations recorded")
+	}
+}
+
+// TestGlobUnprivileged (run as uid 65534): trees with directories the user may not list, in every
+// position of the walk (before, between and after the directories that hold matches, nested), one or
+// two at a time. Patterns that match files by extension only (a locked directory that is itself
+// matched is a file that cannot be hashed: C18's subject).
+func TestGlobUnprivileged(t *testing.T) {
+	s := ev.Open(t, "C05")
+	if os.Geteuid() == 0 {
+		s.Note("running as root: directory modes do not bind, the unprivileged glob leg was skipped")
+		s.Eval()
+		return
+	}
+	root := filepath.Join(workRoot(t), "proj")
+	base := []string{"a.x", "src/main.x", "src/sub/b.x", "m/mid.x", "zz/late.x"}
+	lockable := []string{"0-first", "locked", "n-between", "src/locked", "src/sub/deep", "zzz-last"}
+	pats := []string{"*.x", "**/*.x", "src/*.x", "*/*.x", "src/**/*.x", "**/b.x", "{src,zz}/*.x"}
+	seen := map[string]bool{}
+	var idx uint64
+	for mask := 1; mask < 1<<len(lockable); mask++ {
+		if bits.OnesCount(uint(mask)) > 2 {
+			continue
+		}
+		for _, via := range []bool{false, true} {
+			c := GlobCase{Patterns: pats, Paths: append([]string(nil), base...), ViaChain: via}
+			for i, d := range lockable {
+				c.Paths = append(c.Paths, d+"/in.x") // exists in every tree; visible unless locked
+				if mask&(1<<i) != 0 {
+					c.Locked = append(c.Locked, d)
+				}
+			}
+			idx++
+			payload, _ := json.Marshal(c)
+			s.Progress(idx, payload)
+			s.EvalN(2 * int64(len(c.Patterns)))
+			s.Class("trees_with_unlistable_directories")
+			s.NonTrivial("locked:" + string(payload))
+			if idx%7 == 0 {
+				s.Sample(map[string]any{"tree": c.Paths, "mode_000": c.Locked})
+			}
+			if f := execGlob(s, root, c); f != nil && !seen[f.Sig] {
+				seen[f.Sig] = true
+				s.Violation("unpriv-glob", f.Sig, f.Msg, f.Size, c)
+			}
+		}
+	}
 	if s.Failed() {
 		t.Fatal("violations recorded")
 	}
